@@ -78,42 +78,8 @@ static int rec_is(const struct v_wrec *r, int dest, const char *want, size_t wl)
     return 1;
 }
 
-void harness(void)
+static void run_once(void)
 {
-    V_HAVOC_IN();
-    V_LOAD_CH();
-    IN.msg[MSGMAX] = '\0'; IN.arg[ARGMAXLEN] = '\0'; IN.ident[2] = '\0';
-    for (int i = 0; i < MSGMAX; i++) V_ASSUME(IN.msg[i] != '%');        /* format expansion is C05's subject */
-    for (int i = 0; i < ARGMAXLEN; i++) V_ASSUME(IN.arg[i] != '%');
-    for (int i = 0; i < 2; i++) V_ASSUME(IN.ident[i] != '%');
-#ifdef OUTSEL
-    IN.out = OUTSEL;                 /* partition: one query per output */
-#endif
-    V_ASSUME(IN.out < 9 && IN.fac < 20 && IN.lev < 8);
-    V_ASSUME(IN.bufsize >= 1 && IN.bufsize <= (1u << 20));
-#ifdef KF_record_larger_than_stdio_buffer
-    /* known finding (C17): records larger than the stdio buffer reach the file in >= 2 write() calls */
-    V_ASSUME((size_t)IN.bufsize >= strlen(IN.msg) + 1);
-#endif
-    v_fs_reset();
-#ifdef HAVE_VSYS
-    v_sys.pid = (pid_t)(IN.pid & ((1 << PIDBITS) - 1));
-#endif
-    v_stdio_bufsize = IN.bufsize;
-
-    g_cfg.initialized = SNOOPY_TRUE;
-    g_cfg.filtering_enabled = SNOOPY_TRUE;
-    g_cfg.filter_chain = "";
-    g_cfg.error_logging_enabled = (IN.errlog & 1) ? SNOOPY_TRUE : SNOOPY_FALSE;
-    g_cfg.message_format = IN.msg;
-    g_cfg.output = (char *)OUT[IN.out];
-    g_cfg.output_arg = IN.arg;
-    g_cfg.syslog_facility = FACV[IN.fac];
-    g_cfg.syslog_level = IN.lev;
-    g_cfg.syslog_ident_format = IN.ident;
-    g_cfg.log_message_max_length = LMAX;
-    g_cfg.datasource_message_max_length = 4;
-
     snoopy_action_log_syscall_exec();
 
     size_t ml = strlen(IN.msg), al = strlen(IN.arg);
@@ -194,5 +160,50 @@ void harness(void)
             break;
         }
     }
+}
+
+void harness(void)
+{
+    V_HAVOC_IN();
+    V_LOAD_CH();
+    IN.msg[MSGMAX] = '\0'; IN.arg[ARGMAXLEN] = '\0'; IN.ident[2] = '\0';
+    for (int i = 0; i < MSGMAX; i++) V_ASSUME(IN.msg[i] != '%');        /* format expansion is C05's subject */
+    for (int i = 0; i < ARGMAXLEN; i++) V_ASSUME(IN.arg[i] != '%');
+    for (int i = 0; i < 2; i++) V_ASSUME(IN.ident[i] != '%');
+#ifdef OUTSEL
+    IN.out = OUTSEL;                 /* partition: one query per output */
+#endif
+    V_ASSUME(IN.out < 9 && IN.fac < 20 && IN.lev < 8);
+    V_ASSUME(IN.bufsize >= 1 && IN.bufsize <= (1u << 20));
+#ifdef KF_record_larger_than_stdio_buffer
+    /* known finding (C17): records larger than the stdio buffer reach the file in >= 2 write() calls */
+    V_ASSUME((size_t)IN.bufsize >= strlen(IN.msg) + 1);
+#endif
+    v_fs_reset();
+#ifdef HAVE_VSYS
+    v_sys.pid = (pid_t)(IN.pid & ((1 << PIDBITS) - 1));
+#endif
+    v_stdio_bufsize = IN.bufsize;
+
+    g_cfg.initialized = SNOOPY_TRUE;
+    g_cfg.filtering_enabled = SNOOPY_TRUE;
+    g_cfg.filter_chain = "";
+    g_cfg.error_logging_enabled = (IN.errlog & 1) ? SNOOPY_TRUE : SNOOPY_FALSE;
+    g_cfg.message_format = IN.msg;
+    g_cfg.output = (char *)OUT[IN.out];
+    g_cfg.output_arg = IN.arg;
+    g_cfg.syslog_facility = FACV[IN.fac];
+    g_cfg.syslog_level = IN.lev;
+    g_cfg.syslog_ident_format = IN.ident;
+    g_cfg.log_message_max_length = LMAX;
+    g_cfg.datasource_message_max_length = 4;
+
+    run_once();
+#ifdef TWICE
+    /* a second call in the same process must behave exactly like the first (no state carried over) */
+    v_fs_reset();
+    v_stdio_bufsize = IN.bufsize;
+    run_once();
+#endif
     V_WITNESS();
 }
